@@ -544,6 +544,7 @@ fiSFloDissemble(FiSFlo sf, FiBool *psign, FiSInt *pexpon, FiWord *psig0)
 	Bool	sign;
 	int	expon;
 
+	*psig0 = 0;	/* sfDissemble fills sizeof(FiSFlo) bytes of the word only */
 	sfDissemble(&sf, &sign, &expon, (UByte *)psig0, NULL);
 
 	/* FiBool and Bool are not equivalent, nor are FiSInt and int. */
@@ -882,6 +883,7 @@ fiDFloDissemble(FiDFlo df, FiBool *psign, FiSInt *pexpon, FiWord *psig0, FiWord 
 	int	expon;
 	FiWord	fracb[2];
 
+	fracb[0] = fracb[1] = 0; /* dfDissemble fills sizeof(FiDFlo) bytes only */
  	dfDissemble(&df, &sign, &expon, (UByte *)fracb, NULL);
 
 	/* FiBool and Bool are not equivalent, nor are FiSInt and int. */
